@@ -37,7 +37,7 @@ func (g *Gen) builtin(b *ssa.Builtin, c *ssa.CallCommon, args []string, h *Heap,
 			return h, []string{m.mapCard(h, u, args[0])}
 		case *types.Basic:
 			g.vc.ensureStrBase()
-			return h, []string{App("str.len", args[0])}
+			return h, []string{App("slen", args[0])}
 		case *types.Chan:
 			return h, []string{g.vc.Fresh("chanlen", SInt)}
 		case *types.Pointer, *types.Array:
@@ -52,9 +52,23 @@ func (g *Gen) builtin(b *ssa.Builtin, c *ssa.CallCommon, args []string, h *Heap,
 		return g.appendBuiltin(c, args, h, guard)
 	case "copy":
 		if sl, ok := c.Args[0].Type().Underlying().(*types.Slice); ok {
+			if _, srcIsSlice := c.Args[1].Type().Underlying().(*types.Slice); srcIsSlice {
+				et := sl.Elem()
+				es := elemSort(et)
+				name := elemVar(et)
+				srt := ArrSort(SInt, ArrSort(SInt, es))
+				E := h.Get(name, srt)
+				d, s := args[0], args[1]
+				n := g.vc.Fresh("copied", SInt)
+				g.vc.Def(Eq(n, Ite(App("<=", m.slLen(d), m.slLen(s)), m.slLen(d), m.slLen(s))))
+				dRow, sRow := Sel(E, m.slBase(d)), Sel(E, m.slBase(s))
+				B := fmt.Sprintf("(lambda ((i Int)) (ite (and (<= %s i) (< i (+ %s %s))) (select %s (+ %s (- i %s))) (select %s i)))",
+					m.slOff(d), m.slOff(d), n, sRow, m.slOff(s), m.slOff(d), dRow)
+				return h.Set(name, srt, Sto(E, m.slBase(d), B)), []string{n}
+			}
 			name := elemVar(sl.Elem())
 			g.vc.noteHeapVar(name, ArrSort(SInt, ArrSort(SInt, elemSort(sl.Elem()))))
-			g.vc.abstract("copy(): destination array contents havocked")
+			g.vc.abstract("copy() from a string: destination array contents havocked")
 			return h.HavocVars([]string{name}), []string{g.vc.Fresh("copied", SInt)}
 		}
 		return h, []string{g.vc.Fresh("copied", SInt)}
@@ -140,20 +154,18 @@ func (g *Gen) appendBuiltin(c *ssa.CallCommon, args []string, h *Heap, guard str
 	}
 	oldRow := Sel(E, m.slBase(s))
 	var inplaceRow string
+	rest := g.vc.Fresh("append.rest", ArrSort(SInt, es)) // unspecified contents beyond the new length
+	_ = A
 	if single != "" {
 		inplaceRow = Sto(oldRow, App("+", m.slOff(s), lenS), single)
-		g.vc.Def(Imp(Not(inPlace), Eq(Sel(A, lenS), single)))
+		A = fmt.Sprintf("(lambda ((i Int)) (ite (and (<= 0 i) (< i %s)) (select %s (+ %s i)) (ite (= i %s) %s (select %s i))))", lenS, oldRow, m.slOff(s), lenS, single, rest)
 	} else {
-		B := g.vc.Fresh("append.row", ArrSort(SInt, es))
-		inplaceRow = B
 		tRow := Sel(E, m.slBase(t))
-		g.vc.Def(fmt.Sprintf("(forall ((i Int)) (! (= (select %s i) (ite (and (<= (+ %s %s) i) (< i (+ %s %s %s))) (select %s (+ %s (- i (+ %s %s)))) (select %s i))) :pattern ((select %s i))))",
-			B, m.slOff(s), lenS, m.slOff(s), lenS, lenT, tRow, m.slOff(t), m.slOff(s), lenS, oldRow, B))
-		g.vc.Def(fmt.Sprintf("(forall ((j Int)) (! (=> (and (<= 0 j) (< j %s)) (= (select %s (+ %s j)) (select %s (+ %s j)))) :pattern ((select %s (+ %s j)))))",
-			lenT, A, lenS, tRow, m.slOff(t), A, lenS))
+		inplaceRow = fmt.Sprintf("(lambda ((i Int)) (ite (and (<= (+ %s %s) i) (< i (+ %s %s %s))) (select %s (+ %s (- i (+ %s %s)))) (select %s i)))",
+			m.slOff(s), lenS, m.slOff(s), lenS, lenT, tRow, m.slOff(t), m.slOff(s), lenS, oldRow)
+		A = fmt.Sprintf("(lambda ((i Int)) (ite (and (<= 0 i) (< i %s)) (select %s (+ %s i)) (ite (and (<= %s i) (< i (+ %s %s))) (select %s (+ %s (- i %s))) (select %s i))))",
+			lenS, oldRow, m.slOff(s), lenS, lenS, lenT, tRow, m.slOff(t), lenS, rest)
 	}
-	g.vc.Def(fmt.Sprintf("(forall ((i Int)) (! (=> (and (<= 0 i) (< i %s)) (= (select %s i) (select %s (+ %s i)))) :pattern ((select %s i))))",
-		lenS, A, oldRow, m.slOff(s), A))
 	newE := Ite(inPlace, Sto(E, m.slBase(s), inplaceRow), Sto(E, nb, A))
 	h2 = h2.Set(name, srt, newE)
 	return h2, []string{r}
@@ -256,14 +268,18 @@ func (w *World) instrWrites(in ssa.Instruction, ws *WriteSet, g *Gen) {
 		}
 	case *ssa.Send, *ssa.Select:
 		w.interferenceWrites(ws, g)
+		ws.Recvs = true
 		if _, ok := w.specs.Ghosts["slept"]; ok {
 			ws.add("G.slept", SInt)
+			ws.add("G.lastWait", SInt)
 		}
 	case *ssa.UnOp:
 		if x.Op == token.ARROW {
 			w.interferenceWrites(ws, g)
+			ws.Recvs = true
 			if _, ok := w.specs.Ghosts["slept"]; ok {
 				ws.add("G.slept", SInt)
+				ws.add("G.lastWait", SInt)
 			}
 		}
 	}
@@ -332,6 +348,23 @@ func freshRoot(addr ssa.Value) bool {
 	}
 }
 
+// freshSliceVal: the slice's backing array was allocated by this very function.
+func freshSliceVal(v ssa.Value) bool {
+	for {
+		switch a := v.(type) {
+		case *ssa.MakeSlice:
+			return freshScope == nil || freshScope[a.Block()]
+		case *ssa.Slice:
+			if _, isPtr := a.X.Type().Underlying().(*types.Pointer); isPtr {
+				return freshRoot(a.X)
+			}
+			v = a.X
+		default:
+			return false
+		}
+	}
+}
+
 func (w *World) ptrWrites(addr ssa.Value, ws *WriteSet) {
 	if freshRoot(addr) {
 		tmp := &WriteSet{Vars: map[string]Sort{}}
@@ -386,7 +419,11 @@ func (w *World) callWrites(c *ssa.CallCommon, ws *WriteSet, g *Gen, encl *ssa.Fu
 		switch b.Name() {
 		case "append", "copy":
 			if sl, ok := c.Args[0].Type().Underlying().(*types.Slice); ok {
-				ws.add(elemVar(sl.Elem()), ArrSort(SInt, ArrSort(SInt, elemSort(sl.Elem()))))
+				if freshSliceVal(c.Args[0]) {
+					ws.addFresh(elemVar(sl.Elem()), ArrSort(SInt, ArrSort(SInt, elemSort(sl.Elem()))))
+				} else {
+					ws.add(elemVar(sl.Elem()), ArrSort(SInt, ArrSort(SInt, elemSort(sl.Elem()))))
+				}
 			}
 		case "delete":
 			mt := c.Args[0].Type().Underlying().(*types.Map)
@@ -444,6 +481,9 @@ func (w *World) callWrites(c *ssa.CallCommon, ws *WriteSet, g *Gen, encl *ssa.Fu
 		if ct.Flags["yields"] != "" || (fn != nil && len(fn.Blocks) > 0 && w.isRepoFunc(fn) && w.writeSet(fn, nil).Yields) {
 			w.interferenceWrites(ws, g)
 		}
+		if fn != nil && len(fn.Blocks) > 0 && w.isRepoFunc(fn) && w.writeSet(fn, nil).Recvs {
+			ws.Recvs = true
+		}
 		if ct.HasAssigns {
 			for _, d := range ct.allAssigns() {
 				names, all := w.designatorVars(d, fn, ct)
@@ -482,6 +522,11 @@ func (w *World) designatorVars(d string, fn *ssa.Function, ct *Contract) (map[st
 	d = strings.TrimSpace(d)
 	if d == "everything" {
 		return out, true
+	}
+	if strings.HasPrefix(d, "heap(") && strings.HasSuffix(d, ")") {
+		n := d[5 : len(d)-1]
+		out[n] = heapVarSortByName(n)
+		return out, false
 	}
 	var pkg *types.Package
 	if fn != nil && fn.Pkg != nil {
@@ -540,6 +585,21 @@ func (w *World) designatorVars(d string, fn *ssa.Function, ct *Contract) (map[st
 		return out, true
 	}
 	return out, false
+}
+
+// heapVarSortByName derives the sort of an Elem./Cell. heap variable from its name.
+func heapVarSortByName(n string) Sort {
+	val := SInt
+	switch {
+	case strings.HasSuffix(n, ".Str") || strings.HasSuffix(n, ".string"):
+		val = SStr
+	case strings.HasSuffix(n, ".Bool") || strings.HasSuffix(n, ".bool"):
+		val = SBool
+	}
+	if strings.HasPrefix(n, "Elem.") {
+		return ArrSort(SInt, ArrSort(SInt, val))
+	}
+	return ArrSort(SInt, val)
 }
 
 func structOf2(t types.Type) (*types.Struct, string, bool) {
@@ -725,6 +785,10 @@ func (g *Gen) designatorCells(d string, env *Env) ([]cellTarget, error) {
 	}
 	if d == "everything" {
 		return nil, fmt.Errorf("everything")
+	}
+	if strings.HasPrefix(d, "heap(") && strings.HasSuffix(d, ")") {
+		n := d[5 : len(d)-1]
+		return []cellTarget{{varName: n, sort: heapVarSortByName(n)}}, nil
 	}
 	if strings.HasSuffix(d, "[*]") {
 		vars, all := g.w.designatorVars(d, g.calleeFnFor(env), nil)
@@ -930,7 +994,7 @@ func (g *Gen) frameObligations(exit *Heap, guard string, pos string) {
 			continue
 		}
 		if strings.HasPrefix(n, "G.") {
-			if gd := g.specs.Ghosts[n[2:]]; gd != nil && (gd.Monotone || gd.Name == "causeOk") {
+			if gd := g.specs.Ghosts[n[2:]]; gd != nil && (gd.Monotone || gd.Name == "causeOk" || gd.Name == "acquires" || gd.Name == "slept" || gd.Name == "lastWait") {
 				continue // latches are set by other goroutines at any time (rely); never framed
 			}
 		}
